@@ -138,6 +138,19 @@ def r2_same_wiring(ctx):
             ctx.ok("cli|%s" % fid.split("::")[-1], f.where(), "delegates to run_source")
         else:
             ctx.bad("cli|%s" % fid.split("::")[-1], f.where(), "%s no longer runs scripts through run_source" % fid)
+    # stdin front end: the bytes are validated as text once, after everything was read; validating per read chunk rejects a
+    # script whose multi-byte character straddles a chunk boundary although the same script runs from a file
+    g = ctx.need("cmd::run_stdin", ctx.bin)
+    dec = [c for c in g.calls() if (c.callee or "").split("::")[-1] in ("from_utf8", "from_utf8_lossy", "from_utf8_unchecked") and "str" in (c.callee or "")]
+    fetch = [c for c in g.calls() if (c.callee or "").split("::")[-1] in ("read", "fill_buf", "read_to_end", "read_to_string") and "io" in (c.callee or "")]
+    checked = [c for c in dec if not (c.callee or "").endswith("unchecked")]
+    if not checked:
+        ctx.bad("cli|stdin-validation|missing", g.where(), "run_stdin hands unvalidated bytes to the pipeline as text")
+    for d in checked:
+        if any(d.block in g.reach_from_succ(d.block) and fc.block in g.reach_from_succ(d.block) for fc in fetch):
+            ctx.bad("cli|stdin-validation|per-chunk", g.where(d.block), "run_stdin validates UTF-8 inside the read loop (per chunk): a valid script with a multi-byte character on a chunk boundary is refused on stdin but accepted from a file")
+        else:
+            ctx.ok("cli|stdin-validation|whole-buffer#%d" % d.block, g.where(d.block), "validated once after the read loop")
     # wasm front end: not type-checkable on this host (cfg(target_family = "wasm"), no wasm32 std) -> lexical
     (w, body) = wasm_sequence(ctx.repo)
     if w is None:
